@@ -37,7 +37,7 @@ Print Assumptions C16_parse_is_spec.
 Theorem C16_parse_is_spec_none : forall b s, wallet_spec s = None ->
   (spec_template s = None /\ parse_pk_script_gen b s = Err (a2_err b)) \/
   (exists h t, spec_template s = Some (TBinding h t) /\ lenZ t = 22 /\ target_ok t = false /\
-               parse_pk_script_gen b s = Err EAddress).
+               parse_pk_script_gen b s = Err (target_err b)).
 Proof. exact parse_pk_script_spec_none. Qed.
 Print Assumptions C16_parse_is_spec_none.
 
@@ -83,7 +83,8 @@ Theorem C16_unsupported_unreachable : forall s, parse_pk_script_gen false s <> E
 Proof. exact parse_pk_script_never_unsupported. Qed.
 Print Assumptions C16_unsupported_unreachable.
 Theorem C16_unsupported_iff_fixed : forall s, parse_pk_script_gen true s = Err EUnsupported <->
-  (script_class s = NonStandardTy \/ script_class s = MultiSigTy \/ script_class s = NullDataTy).
+  (script_class s = NonStandardTy \/ script_class s = MultiSigTy \/ script_class s = NullDataTy \/
+   exists h t, spec_template s = Some (TBinding h t) /\ lenZ t = 22 /\ target_ok t = false).
 Proof. exact unsupported_iff_fixed. Qed.
 Print Assumptions C16_unsupported_iff_fixed.
 Theorem C16_nonwitness_error : forall b s,
@@ -111,7 +112,7 @@ Print Assumptions C16_builders_roundtrip.
 (* [valid_target] cannot be dropped: a raw 22-byte target that is not an address builds and does not read back
    (the wallet's own path takes the target from a massutil.Address, so it cannot produce one) *)
 Theorem C16_builders_roundtrip_raw_refuted : forall b, exists h t s, lenZ h = 32 /\ lenZ t = 22 /\
-  pay_to_binding_script h t = Ok s /\ parse_pk_script_gen b s = Err EAddress.
+  pay_to_binding_script h t = Ok s /\ parse_pk_script_gen b s = Err (target_err b).
 Proof. exact roundtrip_binding_raw_refuted. Qed.
 Print Assumptions C16_builders_roundtrip_raw_refuted.
 
